@@ -75,5 +75,11 @@ func ruleSizedFamilies(c *core.Ctx, poss []string, floor int) {
 			return is
 		})
 	}
+	if floor <= 30 {
+		for _, pos := range []string{"required", "optional"} {
+			sp := &fam.Spec{Kind: "array", Items: &fam.Spec{Kind: "integer", Kw: []string{"minimum", "maximum"}, IntBounds: true}}
+			runMemberOpt(c, member{name: "sized integers as array elements " + pos, cfg: cfg, root: place(sp, pos)}, rules, 4000, true, checkRoot)
+		}
+	}
 	c.Floor("sized families", c.Counts["members"], floor, "sized-integer family members")
 }
